@@ -34,7 +34,10 @@ def handle (fields : List String) (obs : String) : String × String :=
         else if obs = "reject" then
           "fail:conforming-document-rejected:" ++ name ++ ":" ++
             (match decodeSerde false g t with | .error e => errName e | .ok _ => "unexplained")
-        else if obs.startsWith "ok " then "fail:decoded value differs from the document; expected " ++ want
+        else if obs.startsWith "ok " then
+          -- accepted by both; explained exactly by uriparse's re-printing of a URI reference?
+          if obs = model ∧ !(lenientFree sp t) then "fail:known-deviation:uri-respelled-by-uriparse"
+          else "fail:decoded value differs from the document; expected " ++ want
         else "fail:unparsable-observation"
       (model, verdict)
     | _, _, _ => ("bad-op", "bad-op")
